@@ -311,6 +311,10 @@ func runC13(c *core.Ctx) {
 							bad("SignASN1", fmt.Sprintf("a signature made by SignASN1 does not verify under crypto/ecdsa (err=%v)", err), map[string]any{"signature": core.Hex(der)})
 							return
 						}
+						if pk, ok := k.fork.Public().(*ecdsa.PublicKey); !ok || pk.X.Cmp(k.std.X) != 0 || pk.Y.Cmp(k.std.Y) != 0 || !pk.Equal(&k.fork.PublicKey) || !k.fork.Equal(k.fork) {
+							bad("PrivateKey.Public", "Public() is not the key's public key (or Equal denies that a key equals itself)", nil)
+							return
+						}
 						der2, err := k.fork.Sign(r, digest, crypto.SHA256)
 						if err != nil || !stdecdsa.VerifyASN1(&k.std.PublicKey, digest, der2) || !ecdsa.VerifyASN1(&k.fork.PublicKey, digest, der2) {
 							bad("PrivateKey.Sign", "a signature made by PrivateKey.Sign does not verify", map[string]any{"signature": core.Hex(der2)})
